@@ -134,6 +134,10 @@ def programs():
     g1 = T.prog([T.fn("m1", ["a", "b"], ["p"], func_key="G", fname="two_arg_fn")])
     g2 = T.prog([T.fn("m2", ["a", "b"], ["p"], func_key="G", fname="two_arg_fn", rename_in={"a": "b", "b": "a"})])
     yield "swapped-renames-across-graphs", {"g": g1, "h": g2}, [{"a": ["v", 0], "b": ["v", 1]}]
+    # two route gates over one function and the same targets that differ ONLY in their fallback; the function answers None
+    f1 = T.prog([T.route("ra", ["e0"], ["ta", "tb"], fallback="ta", func_key="RF", fname="shared_route_fn", behav={"py": "None"}), T.fn("ta", ["e0"], ["ra0"]), T.fn("tb", ["e0"], ["rb0"])])
+    f2 = T.prog([T.route("rb", ["e0"], ["ta", "tb"], fallback="tb", func_key="RF", fname="shared_route_fn", behav={"py": "None"}), T.fn("ta2", ["e0"], ["ra0"], name="ta"), T.fn("tb2", ["e0"], ["rb0"], name="tb")])
+    yield "routes-differing-in-fallback", {"g": f1, "h": f2}, [{"e0": ["v", 0]}]
     # one function behind two nodes that differ ONLY in the signal they emit (same data output, same arguments)
     e1 = T.prog([T.fn("n1", ["e0"], ["p"], func_key="E", fname="shared_emit_fn", emit=["s1"]), T.fn("w1", ["e0"], ["w0"], wait_for=["s1"])])
     e2 = T.prog([T.fn("n2", ["e0"], ["p"], func_key="E", fname="shared_emit_fn", emit=["s2"]), T.fn("w2", ["e0"], ["w0"], wait_for=["s2"])])
@@ -197,7 +201,7 @@ def model_key(spec, args):
     if spec["kind"] == "ifelse":
         extra = (spec["when_true"], spec["when_false"])
     elif spec["kind"] == "route":
-        extra = tuple(spec["targets"])
+        extra = tuple(spec["targets"]) + (("fallback", spec.get("fallback")),)
     ro = spec.get("rename_out") or {}
     return (spec.get("func_key", spec["id"]), repr(sorted(args.items())), tuple(ro.get(o, o) for o in spec.get("outs", [])) + tuple(spec.get("emit", [])), extra)
 
